@@ -10,6 +10,7 @@ import (
 	"os"
 	"os/exec"
 	"path/filepath"
+	"regexp"
 	"sort"
 	"strconv"
 	"strings"
@@ -373,6 +374,44 @@ func runCheck(id, tier, replay string) int {
 	}
 	wg.Wait()
 
+	// Regression inputs of repaired defects ("fixed:" lines of KNOWN_FINDINGS.txt that name this property):
+	// each is replayed through the package's TestReplay in its own process; a fixed entry suppresses
+	// nothing, so a defect that returns is reported again.
+	var regViol []violation
+	var regRan, regNotJudged int
+	if replay == "" {
+		files := regressionFiles(id)
+		rsem := make(chan struct{}, 16)
+		var rmu sync.Mutex
+		var rwg sync.WaitGroup
+		for k, f := range files {
+			rwg.Add(1)
+			go func(k int, f string) {
+				defer rwg.Done()
+				rsem <- struct{}{}
+				defer func() { <-rsem }()
+				rwork := filepath.Join(work, fmt.Sprintf("reg-%d", k))
+				os.MkdirAll(rwork, 0o755)
+				r := runShard(bin, rwork, c, tier, seed, 0, 1, 5*time.Minute, nil, f)
+				rmu.Lock()
+				defer rmu.Unlock()
+				regRan++
+				buf, err := os.ReadFile(filepath.Join(rwork, "shard-0.json"))
+				var p partial
+				if err == nil && json.Unmarshal(buf, &p) == nil {
+					for _, v := range p.Violations {
+						v.Test = "FixedRegression(" + filepath.Base(f) + ")/" + v.Test
+						regViol = append(regViol, v)
+					}
+				}
+				if r.exit != 0 && len(p.Violations) == 0 && !strings.Contains(r.log, "VIOLATION-CASE") {
+					regNotJudged++
+				}
+			}(k, f)
+		}
+		rwg.Wait()
+	}
+
 	// merge
 	var (
 		evals      int64
@@ -447,6 +486,11 @@ func runCheck(id, tier, replay string) int {
 		if !p.Complete {
 			incomplete = append(incomplete, fmt.Sprintf("shard %d did not finish", i))
 		}
+	}
+	violations = append(violations, regViol...)
+	hist["fixed_regression_inputs_replayed"] += int64(regRan)
+	if regNotJudged > 0 {
+		hist["fixed_regression_inputs_replay_failed"] += int64(regNotJudged)
 	}
 	crashed := false
 	for _, r := range results {
@@ -683,4 +727,30 @@ func runFuzz(id, target, dur string, workers int) int {
 		return 1
 	}
 	return 0
+}
+
+var reFinding = regexp.MustCompile(`findings/[A-Za-z0-9_.\-]+\.[a-z]+`)
+
+// regressionFiles returns the regression inputs named by the "fixed:" lines of property id.
+func regressionFiles(id string) []string {
+	buf, err := os.ReadFile(filepath.Join(root, "KNOWN_FINDINGS.txt"))
+	if err != nil {
+		return nil
+	}
+	seen := map[string]bool{}
+	var out []string
+	for _, line := range strings.Split(string(buf), "\n") {
+		if !strings.HasPrefix(line, "fixed: property="+id+" ") {
+			continue
+		}
+		for _, m := range reFinding.FindAllString(line, -1) {
+			p := filepath.Join(root, m)
+			if _, err := os.Stat(p); err == nil && !seen[p] {
+				seen[p] = true
+				out = append(out, p)
+			}
+		}
+	}
+	sort.Strings(out)
+	return out
 }
